@@ -8,8 +8,11 @@ import (
 	"github.com/DrmagicE/gmqtt"
 	"github.com/DrmagicE/gmqtt/retained"
 	rtrie "github.com/DrmagicE/gmqtt/retained/trie"
+	"github.com/DrmagicE/gmqtt/server"
+	"github.com/DrmagicE/gmqtt/zzverif/vsched"
 
 	"verif/explore"
+	"verif/harness"
 	"verif/refmqtt"
 	"verif/statekey"
 )
@@ -200,6 +203,203 @@ func c07Store(c *explore.Ctx) {
 func runC07(c *explore.Ctx) {
 	c.Level = "model_checking"
 	c.Rule = "E1: BFS to closure over AddOrReplace/Remove/ClearAll on the real retained trie store, every new state: GetRetainedMessage for every probe topic, GetMatchedMessages for every filter of the C02 universe, Iterate, copy-independence of results, vs map + reference matcher."
-	c.Trusted = []string{"refmqtt.Match", "statekey.Dump"}
+	c.Trusted = []string{"refmqtt.Match", "statekey.Dump", "vsched default schedule for the wire-level part"}
+	c.Rule += " E2 (wire): every history of <=2 (thorough 3) retained publishes/clears over {a, a/b, $SYS/x} x every SUBSCRIBE shape (6 filters incl. shared x QoS x Retain Handling x RAP x v5/v3.1.1 x subscribe once/twice) on a fresh in-process broker: retained store content, exact replay set with QoS min and RETAIN=1, Retain Handling / re-subscription / shared rules, RETAIN of a live publish."
 	c07Store(c)
+	c07WireAll(c)
+}
+
+// ---- E2: replay of retained messages on SUBSCRIBE (wire level)
+
+type c07Hist struct {
+	topic   string
+	payload string // "" = clear
+	qos     byte
+}
+
+type c07SubCase struct {
+	version byte
+	filter  string
+	qos     byte
+	rh      byte
+	rap     bool
+	twice   bool
+}
+
+func (k c07SubCase) String() string {
+	return fmt.Sprintf("v%d %s q%d rh%d rap%v twice=%v", k.version, k.filter, k.qos, k.rh, k.rap, k.twice)
+}
+
+func c07Wire(c *explore.Ctx, hist []c07Hist, k c07SubCase) {
+	cas := func() any {
+		var hs []string
+		for _, h := range hist {
+			hs = append(hs, fmt.Sprintf("%s=%q q%d", h.topic, h.payload, h.qos))
+		}
+		return map[string]any{"part": "replay-on-subscribe", "retained_history": hs, "subscribe": k.String()}
+	}
+	c.Count("executions", 1)
+	execBody(c, "C07", cas, func() {
+		w := harness.NewWorld(harness.DefaultConfig(), server.Hooks{})
+		if w.InitErr != nil {
+			c.Fatal("init: %v", w.InitErr)
+			return
+		}
+		p := w.Dial("P")
+		p.Connect(harness.ConnectOpts{ClientID: "p", Clean: true, Version: refmqtt.V5})
+		kept := map[string]c07Hist{}
+		for i, h := range hist {
+			pk := &refmqtt.Packet{Type: refmqtt.PUBLISH, Topic: h.topic, Retain: true, QoS: h.qos, Payload: []byte(h.payload)}
+			if h.qos > 0 {
+				pk.PacketID = uint16(i + 1)
+			}
+			p.Send(pk)
+			vsched.Settle()
+			if h.payload == "" {
+				delete(kept, h.topic)
+			} else {
+				kept[h.topic] = h
+			}
+		}
+		// the store holds exactly the last non-empty retained message per topic
+		var have, want []string
+		w.Srv.RetainedService().Iterate(func(m *gmqtt.Message) bool {
+			have = append(have, fmt.Sprintf("%s=%s q%d", m.Topic, m.Payload, m.QoS))
+			return true
+		})
+		for _, h := range kept {
+			want = append(want, fmt.Sprintf("%s=%s q%d", h.topic, h.payload, h.qos))
+		}
+		sort.Strings(have)
+		sort.Strings(want)
+		if !eqStrings(have, want) {
+			c.Violate("retained-store", classifyDiff(have, want)+"-after-publish-history", cas(), strings.Join(want, "; "), strings.Join(have, "; "))
+			return
+		}
+		s := w.Dial("S")
+		s.Connect(harness.ConnectOpts{ClientID: "s", Clean: true, Version: k.version})
+		_, filt, shared := refmqtt.SplitShared(k.filter)
+		rounds := 1
+		if k.twice {
+			rounds = 2
+		}
+		for round := 0; round < rounds; round++ {
+			ack, rest := s.Subscribe(0, refmqtt.Sub{Filter: k.filter, QoS: k.qos, RH: k.rh, RAP: k.rap})
+			if ack == nil || ack.Codes[0] >= 0x80 {
+				c.Violate("subscribe", "refused", cas(), "granted", fmt.Sprint(ack))
+				return
+			}
+			v3 := k.version != refmqtt.V5
+			send := !shared && (v3 || k.rh == 0 || (k.rh == 1 && round == 0))
+			var exp []string
+			if send {
+				for _, h := range kept {
+					if refmqtt.Match(h.topic, filt) {
+						q := h.qos
+						if k.qos < q {
+							q = k.qos
+						}
+						exp = append(exp, fmt.Sprintf("%s=%s q%d ret1", h.topic, h.payload, q))
+					}
+				}
+			}
+			var got []string
+			for _, r := range rest {
+				if r == nil || r.Type != refmqtt.PUBLISH {
+					got = append(got, fmt.Sprint(r))
+					continue
+				}
+				got = append(got, fmt.Sprintf("%s=%s q%d ret%d", r.Topic, r.Payload, r.QoS, b2i(r.Retain)))
+				if r.QoS == 1 {
+					s.Send(&refmqtt.Packet{Type: refmqtt.PUBACK, PacketID: r.PacketID})
+				}
+			}
+			vsched.Settle()
+			sort.Strings(exp)
+			sort.Strings(got)
+			if !eqStrings(got, exp) {
+				cl := classifyDiff(got, exp)
+				// same messages but RETAIN flag cleared?
+				if len(got) == len(exp) && strings.ReplaceAll(strings.Join(got, ";"), "ret0", "ret1") == strings.Join(exp, ";") {
+					cl = "replayed-message-without-RETAIN-flag"
+					if !k.rap {
+						cl += "-when-retain-as-published-is-0"
+					}
+				} else {
+					cl += fmt.Sprintf("-rh%d-%s", k.rh, map[int]string{0: "first-subscribe", 1: "re-subscribe"}[round])
+					if shared {
+						cl += "-shared"
+					}
+					if v3 {
+						cl += "-v3"
+					}
+				}
+				c.Violate("replay-on-subscribe", cl, cas(), strings.Join(exp, "; "), strings.Join(got, "; "))
+				return
+			}
+		}
+		// live forwarding carries RETAIN only under Retain-As-Published
+		if !shared {
+			p.Send(&refmqtt.Packet{Type: refmqtt.PUBLISH, Topic: "a", Retain: true, Payload: []byte("live")})
+			vsched.Settle()
+			for _, r := range s.Recv() {
+				if r.P != nil && r.P.Type == refmqtt.PUBLISH && string(r.P.Payload) == "live" {
+					wantRet := k.rap && k.version == refmqtt.V5
+					if r.P.Retain != wantRet {
+						c.Violate("live-retain-flag", fmt.Sprintf("retain-%v-want-%v", r.P.Retain, wantRet), cas(), fmt.Sprint(wantRet), fmt.Sprint(r.P.Retain))
+					}
+				}
+			}
+		}
+		swallowedPanic(c, w, cas)
+	})
+}
+
+func c07WireAll(c *explore.Ctx) {
+	topics := []string{"a", "a/b", "$SYS/x"}
+	var hists [][]c07Hist
+	var events []c07Hist
+	for _, t := range topics {
+		events = append(events, c07Hist{t, "v1", 1}, c07Hist{t, "v2", 0}, c07Hist{t, "", 0})
+	}
+	hists = append(hists, nil)
+	for _, e1 := range events {
+		hists = append(hists, []c07Hist{e1})
+		for _, e2 := range events {
+			hists = append(hists, []c07Hist{e1, e2})
+			if !c.Quick() {
+				for _, e3 := range events {
+					hists = append(hists, []c07Hist{e1, e2, e3})
+				}
+			}
+		}
+	}
+	var subs []c07SubCase
+	for _, f := range []string{"a", "a/#", "+", "#", "$SYS/#", "$share/g/a"} {
+		for _, q := range []byte{0, 1} {
+			for _, rh := range []byte{0, 1, 2} {
+				for _, rap := range []bool{false, true} {
+					for _, tw := range []bool{false, true} {
+						subs = append(subs, c07SubCase{refmqtt.V5, f, q, rh, rap, tw})
+					}
+				}
+			}
+			if !strings.HasPrefix(f, "$share/") {
+				subs = append(subs, c07SubCase{refmqtt.V311, f, q, 0, false, false}, c07SubCase{refmqtt.V311, f, q, 0, false, true})
+			}
+		}
+	}
+	c.Extra["retained_histories"] = len(hists)
+	c.Extra["subscribe_cases"] = len(subs)
+	c.Units("replay", len(hists), func(u int) {
+		for _, k := range subs {
+			c07Wire(c, hists[u], k)
+			c.Count("transitions", 1)
+		}
+		c.Count("states", int64(len(subs)))
+		if u%23 == 0 {
+			c.Sample(map[string]any{"part": "replay-on-subscribe", "retained_history_len": len(hists[u]), "subscribe_cases": len(subs)})
+		}
+	})
+	c.Count("traces_validated_against_impl", c.Get("executions"))
 }
